@@ -61,35 +61,22 @@ Section Good.
       unfold short in A. lia.
   Qed.
 
-  (* one put, alone, on a good store *)
-  Theorem put_good : forall f k d env chunks,
+  (* what the post-condition of a successful put / commit gives back *)
+  Lemma post_good : forall f f' k d env cs content,
     good cfg f -> storable cfg k d ->
-    we_base env = f_base cfg -> we_dest env = Some d ->
-    comp_ok (we_names env 0) ->
-    fs_lookup f (stage_path (f_base cfg) (we_names env 0)) = None ->
-    exists f' log, w_run (w_fuel env chunks) env f (WCreate 0 chunks) [] = (f', Ok tt, log) /\
-      good cfg f' /\
-      fs_lookup f' d = Some (File (concat chunks)) /\
-      (forall name, fs_lookup f' (stage_path (f_base cfg) name) = fs_lookup f (stage_path (f_base cfg) name)) /\
-      (forall k' d', storable cfg k' d' -> d' <> d -> fs_lookup f' d' = fs_lookup f d').
+    d = f_base cfg ++ cs ++ [enc_key cfg k] -> length cs = shard_depth (f_shard cfg) -> Forall plain cs ->
+    fs_lookup f (stp cfg env) = None ->
+    put_post cfg env d cs f f' content ->
+    good cfg f' /\
+    fs_lookup f' d = Some (File content) /\
+    (forall name, fs_lookup f' (stage_path (f_base cfg) name) = fs_lookup f (stage_path (f_base cfg) name)) /\
+    (forall k' d', storable cfg k' d' -> d' <> d -> fs_lookup f' d' = fs_lookup f d').
   Proof.
-    intros f k d env chunks G S EB ED NO FR.
-    destruct (storable_shape k d S) as [cs [E [CN [L [F P]]]]].
+    intros f f' k d env cs content G S E L F FR PP.
     pose proof S as [KN [K SH]].
-    change (stage_path (f_base cfg) (we_names env 0)) with (stp cfg env) in *.
     set (sp := stp cfg env) in *.
-    assert (SD : forall j, (j <= length cs)%nat -> sp <> f_base cfg ++ firstn j cs).
-    { intros j _ X. symmetry in X. revert X. apply dir_not_staging. auto. }
-    assert (SDd : sp <> d). { intros X. eapply keypath_not_staging; eauto. exists (we_names env 0). auto. }
     assert (ND : fs_lookup f d <> Some Dir).
     { intros X. apply (g_dirs _ _ G) in X. unfold short in X. rewrite (keypath_length cfg k d K) in X. lia. }
-    destruct (put_runs cfg env d cs (enc_key cfg k) base_ok EB ED E P NO f chunks
-                (g_wf _ _ G) (g_base _ _ G) (g_temp _ _ G) FR ND) as [f' [R PP]]; auto.
-    { intros j c _. eapply good_no_file_dirs; eauto. }
-    destruct R as [n [Hn IT]].
-    destruct (w_run_iter env (w_fuel env chunks) n f (WCreate 0 chunks) [] f' (Ok tt)) as [log RUN]; auto.
-    { unfold w_fuel, w_dest. rewrite ED. rewrite E. rewrite !app_length. simpl. lia. }
-    exists f', log. split; auto.
     pose proof (pp_dest _ _ _ _ _ _ _ PP) as P1.
     pose proof (pp_stage _ _ _ _ _ _ _ PP) as P2.
     pose proof (pp_dirs _ _ _ _ _ _ _ PP) as P3.
@@ -158,7 +145,7 @@ Section Good.
       + (* .temp *)
         rewrite P4. apply (g_temp _ _ G).
         * intros X. apply (f_equal (@length _)) in X. rewrite E in X. unfold staging_dir in X.
-          rewrite !app_length in X. simpl in X. destruct cs; try congruence. simpl in X. lia.
+          rewrite !app_length in X. simpl in X. destruct cs; [destruct (f_shard cfg); simpl in L; discriminate|]. simpl in X. lia.
         * intros X. apply (f_equal (@length _)) in X. unfold sp, stp, staging_dir, stage_path in X.
           rewrite !app_length in X. simpl in X. lia.
         * intros j Hj X. unfold staging_dir in X. apply app_inv_head in X.
@@ -197,5 +184,128 @@ Section Good.
         intros j Hj Y. assert (j = 1 \/ j = 2)%nat by (destruct (f_shard cfg); simpl in L; lia).
         destruct H; subst j; congruence.
     - intros k' d' [_ [K' _]] N. apply (KEYP k' d' K' N).
+  Qed.
+
+  (* one put, alone, on a good store *)
+  Theorem put_good : forall f k d env chunks,
+    good cfg f -> storable cfg k d ->
+    we_base env = f_base cfg -> we_dest env = Some d ->
+    comp_ok (we_names env 0) ->
+    fs_lookup f (stage_path (f_base cfg) (we_names env 0)) = None ->
+    exists f' log, w_run (w_fuel env chunks) env f (WCreate 0 chunks) [] = (f', Ok tt, log) /\
+      good cfg f' /\
+      fs_lookup f' d = Some (File (concat chunks)) /\
+      (forall name, fs_lookup f' (stage_path (f_base cfg) name) = fs_lookup f (stage_path (f_base cfg) name)) /\
+      (forall k' d', storable cfg k' d' -> d' <> d -> fs_lookup f' d' = fs_lookup f d').
+  Proof.
+    intros f k d env chunks G S EB ED NO FR.
+    destruct (storable_shape k d S) as [cs [E [CN [L [F P]]]]].
+    pose proof S as [KN [K SH]].
+    change (stage_path (f_base cfg) (we_names env 0)) with (stp cfg env) in *.
+    assert (SD : forall j, (j <= length cs)%nat -> stp cfg env <> f_base cfg ++ firstn j cs).
+    { intros j _ X. symmetry in X. revert X. apply dir_not_staging. auto. }
+    assert (SDd : stp cfg env <> d). { intros X. eapply keypath_not_staging; eauto. exists (we_names env 0). auto. }
+    assert (ND : fs_lookup f d <> Some Dir).
+    { intros X. apply (g_dirs _ _ G) in X. unfold short in X. rewrite (keypath_length cfg k d K) in X. lia. }
+    destruct (put_runs cfg env d cs (enc_key cfg k) base_ok EB ED E P NO f chunks
+                (g_wf _ _ G) (g_base _ _ G) (g_temp _ _ G) FR ND) as [f' [R PP]]; auto.
+    { intros j c _. eapply good_no_file_dirs; eauto. }
+    destruct R as [n [Hn IT]].
+    destruct (w_run_iter env (w_fuel env chunks) n f (WCreate 0 chunks) [] f' (Ok tt)) as [log RUN]; auto.
+    { unfold w_fuel, w_dest. rewrite ED. rewrite E. rewrite !app_length. simpl. lia. }
+    exists f', log. split; auto.
+    eapply post_good; eauto.
+  Qed.
+
+  (* removing a staging file keeps the store good *)
+  Lemma good_remove_stage : forall g sp c, good cfg g -> fs_lookup g sp = Some (File c) -> good cfg (fs_remove g sp).
+  Proof.
+    intros g sp c G L.
+    assert (SN : sp <> []) by (eapply lookup_file_nonnil; eauto).
+    constructor.
+    - eapply wf_remove_file; eauto. apply (g_wf _ _ G).
+    - eapply all_dirs_transfer; [|apply (g_base _ _ G)]. intros n Hn. apply lookup_remove_other.
+      intros X. subst sp. rewrite (g_base _ _ G) in L by auto. discriminate.
+    - rewrite lookup_remove_other. apply (g_temp _ _ G). intros X. subst sp. rewrite (g_temp _ _ G) in L. discriminate.
+    - intros p c' LP. destruct (path_eqb sp p) eqn:X.
+      + apply path_eqb_eq in X. subst p. rewrite lookup_remove_same in LP by auto. discriminate.
+      + apply path_eqb_neq in X. rewrite lookup_remove_other in LP by auto. apply (g_files _ _ G _ _ LP).
+    - intros p LP. destruct (path_eqb sp p) eqn:X.
+      + apply path_eqb_eq in X. subst p. rewrite lookup_remove_same in LP by auto. discriminate.
+      + apply path_eqb_neq in X. rewrite lookup_remove_other in LP by auto. apply (g_dirs _ _ G _ LP).
+  Qed.
+
+  (* creating or overwriting a staging file keeps the store good *)
+  Lemma good_set_stage : forall g name c, good cfg g ->
+    fs_lookup g (stage_path (f_base cfg) name) <> Some Dir ->
+    good cfg (fs_set g (stage_path (f_base cfg) name) (File c)).
+  Proof.
+    intros g name c G ND. set (sp := stage_path (f_base cfg) name) in *.
+    assert (SN : sp <> []). { unfold sp, stage_path. destruct (f_base cfg); discriminate. }
+    assert (DS : dirname sp = staging_dir (f_base cfg)).
+    { unfold sp, stage_path, staging_dir.
+      replace (f_base cfg ++ [temp_name; name]) with ((f_base cfg ++ [temp_name]) ++ [name]) by (rewrite <- app_assoc; auto).
+      apply dirname_snoc. }
+    assert (LEN : length sp = (length (f_base cfg) + 2)%nat). { unfold sp, stage_path. rewrite app_length. reflexivity. }
+    constructor.
+    - apply wf_set_leaf; [apply (g_wf _ _ G)|exact SN|rewrite DS; apply (g_temp _ _ G)| |].
+      + intros c0 _. exact ND.
+      + intros X. discriminate.
+    - eapply all_dirs_transfer; [|apply (g_base _ _ G)]. intros n Hn. apply lookup_set_other.
+      intros X. apply (f_equal (@length _)) in X. rewrite LEN, firstn_length in X. lia.
+    - rewrite lookup_set_other. apply (g_temp _ _ G).
+      intros X. apply (f_equal (@length _)) in X. rewrite LEN in X. unfold staging_dir in X. rewrite app_length in X. simpl in X. lia.
+    - intros p c' LP. destruct (path_eqb sp p) eqn:X.
+      + apply path_eqb_eq in X. subst p. left. exists name. reflexivity.
+      + apply path_eqb_neq in X. rewrite lookup_set_other in LP by auto. apply (g_files _ _ G _ _ LP).
+    - intros p LP. destruct (path_eqb sp p) eqn:X.
+      + apply path_eqb_eq in X. subst p. rewrite lookup_set_same in LP by auto. discriminate.
+      + apply path_eqb_neq in X. rewrite lookup_set_other in LP by auto. apply (g_dirs _ _ G _ LP).
+  Qed.
+
+  (* the commit of a stream whose staging file holds [content], on a good store *)
+  Theorem commit_good : forall g k d env content,
+    good cfg g -> storable cfg k d ->
+    we_base env = f_base cfg -> we_dest env = Some d ->
+    comp_ok (we_names env 0) ->
+    fs_lookup g (stp cfg env) = Some (File content) ->
+    exists f' log, w_run (w_fuel env []) env g (WClose (stp cfg env) None) [] = (f', Ok tt, log) /\
+      good cfg f' /\
+      fs_lookup f' d = Some (File content) /\
+      fs_lookup f' (stp cfg env) = None /\
+      (forall name, stage_path (f_base cfg) name <> stp cfg env ->
+                    fs_lookup f' (stage_path (f_base cfg) name) = fs_lookup g (stage_path (f_base cfg) name)) /\
+      (forall k' d', storable cfg k' d' -> d' <> d -> fs_lookup f' d' = fs_lookup g d').
+  Proof.
+    intros g k d env content G S EB ED NO LG.
+    destruct (storable_shape k d S) as [cs [E [CN [L [F P]]]]].
+    pose proof S as [KN [K SH]].
+    set (sp := stp cfg env) in *.
+    assert (SPN : sp <> []) by (eapply lookup_file_nonnil; eauto).
+    assert (SD : forall j, (j <= length cs)%nat -> sp <> f_base cfg ++ firstn j cs).
+    { intros j _ X. symmetry in X. revert X. apply dir_not_staging. auto. }
+    assert (SDd : sp <> d). { intros X. eapply keypath_not_staging; eauto. exists (we_names env 0). auto. }
+    set (f := fs_remove g sp).
+    assert (GF : good cfg f) by (eapply good_remove_stage; eauto).
+    assert (FR : fs_lookup f sp = None) by (apply lookup_remove_same; auto).
+    assert (SG : same_except f g sp).
+    { intros p Hp. unfold f. symmetry. apply lookup_remove_other. auto. }
+    assert (ND : fs_lookup f d <> Some Dir).
+    { intros X. apply (g_dirs _ _ GF) in X. unfold short in X. rewrite (keypath_length cfg k d K) in X. lia. }
+    destruct (commit_runs cfg env d cs (enc_key cfg k) base_ok EB ED E P NO f g content
+                (g_wf _ _ GF) (g_base _ _ GF) (g_temp _ _ GF) FR ND) as [f' [R PP]]; auto.
+    { intros j c _. eapply good_no_file_dirs; eauto. }
+    destruct R as [n [Hn IT]].
+    destruct (w_run_iter env (w_fuel env []) n g (WClose sp None) [] f' (Ok tt)) as [log RUN]; auto.
+    { unfold w_fuel, w_dest. rewrite ED. rewrite E. rewrite !app_length. simpl. lia. }
+    exists f', log. split; auto.
+    destruct (post_good f f' k d env cs content GF S E L F FR PP) as [G' [LD [STG OTH]]].
+    split; auto. split; auto. split.
+    - specialize (STG (we_names env 0)). change (stage_path (f_base cfg) (we_names env 0)) with sp in STG.
+      rewrite STG. exact FR.
+    - split.
+      + intros name NE. rewrite STG. unfold f. apply lookup_remove_other. auto.
+      + intros k' d' S' N. rewrite (OTH k' d' S' N). unfold f. apply lookup_remove_other.
+        intros X. destruct S' as [_ [K' _]]. eapply keypath_not_staging; eauto. exists (we_names env 0). auto.
   Qed.
 End Good.
